@@ -290,7 +290,14 @@ func (s *Session) Run(ctx context.Context, dir string, args ...string) error {
 									if err != nil {
 										return err
 									}
-									bss = []match.Bindings{exe.Bs}
+									if exe.Bs == nil {
+										// As in a branch guard, no
+										// bindings means the guard
+										// rejected the match.
+										bss = nil
+									} else {
+										bss = []match.Bindings{exe.Bs}
+									}
 								}
 							}
 							if bss != nil {
